@@ -21,7 +21,8 @@ PROPS["C17"] = prop(
      Unit("TestC17Gate", "server", quick=2500, thorough=100000, shards_quick=2, shards_thorough=8),
      Unit("TestC17Election", "server", quick=350, thorough=10000, shards_quick=16, shards_thorough=16, shrink=60,
           timeout_quick=900, timeout_thorough=7200),
-     Unit("TestC17Rehash", "server", quick=600, thorough=40000, shards_quick=8, shards_thorough=16, timeout_quick=300)],
+     Unit("TestC17Rehash", "server", quick=600, thorough=40000, shards_quick=8, shards_thorough=16, timeout_quick=300),
+     Unit("TestC17Node", "server", quick=3000, thorough=150000, shards_quick=8, shards_thorough=16, timeout_quick=300)],
     ["a dropped request or reply reaches the caller as an RPC error and each request gets at most one reply (as net/rpc over TCP guarantees); an RPC error closes that connection and the harness re-establishes it at the next quiescent point",
      "the two-strike rule of Cluster.run (a follower rehashes at the second health check whose ring differs from its own) is accepted as the meaning of 'adopts node list and ring signature'",
      "'can reach no more than half' is counted from the health-check results the transport itself returned to the leader (consecutive failures per peer >= node_fail_after)",
